@@ -764,8 +764,21 @@ def inline_new_helpers(trees: Dict[str, ast.Module], baseline: Optional[Set[str]
     # a function of the pinned tree that merely moved between a class and module level (staticmethod <-> function, same module,
     # same name) is still that function: an anchor, not a new helper
     base_by_mod_name = {(b.split(".")[0], b.split(".")[-1]) for b in baseline if not b.startswith("const:") and "<locals>" not in b}
+    # a module function that a class binds under a pinned method name (`_check_input = staticmethod(_as_valid_double_array)`)
+    # is that pinned method under another name, not a new helper
+    aliased: Set[Tuple[str, str]] = set()
+    for mname, tree in trees.items():
+        for st in tree.body:
+            if isinstance(st, ast.ClassDef):
+                for x in st.body:
+                    if isinstance(x, ast.Assign) and len(x.targets) == 1 and isinstance(x.targets[0], ast.Name):
+                        v = x.value
+                        if isinstance(v, ast.Call) and isinstance(v.func, ast.Name) and v.func.id in ("staticmethod", "classmethod") and len(v.args) == 1:
+                            v = v.args[0]
+                        if isinstance(v, ast.Name) and f"{mname}.{st.name}.{x.targets[0].id}" in baseline:
+                            aliased.add((mname, v.id))
     for mname, cname, node, qual in funcs:
-        if qual in baseline or ((mname, node.name) in base_by_mod_name and not node.name.startswith("__")):
+        if qual in baseline or ((mname, node.name) in base_by_mod_name and not node.name.startswith("__")) or (cname is None and (mname, node.name) in aliased):
             continue
         decos = {_deco(d) for d in node.decorator_list}
         kind = "staticmethod" if "staticmethod" in decos else "classmethod" if "classmethod" in decos else ("method" if cname else "function")
